@@ -163,6 +163,45 @@ class C15(SeqProp):
         st["eom_before"] = {n: cs.in_eom_mode() for n, cs in seq._schedule.items()}
         return v
 
+    def oracle_final(self, st, case, run):
+        """what the sampler (and so the emulator) sees: between the pulses of an EOM block
+        the detuning is that block's off-detuning, and a channel left in EOM mode idles at
+        the off-detuning of its LATEST setpoint when its samples are extended"""
+        v = []
+        seq = run.get("seq")
+        if seq is None:
+            return v
+        from pulser.sampler import sample
+
+        try:
+            ss = sample(seq)
+        except Exception:  # noqa: BLE001  (sampling is C06's subject)
+            return v
+        for n, cs in seq._schedule.items():
+            if not cs.eom_blocks or n not in ss.channels:
+                continue
+            chs = ss.channel_samples[n]
+            amp = np.asarray(chs.amp, dtype=float)
+            det = np.asarray(chs.det, dtype=float)
+            L = len(det)
+            driven = np.zeros(L, dtype=bool)
+            for s in cs.slots:
+                if isinstance(s.type, Pulse) and not cs.is_detuned_delay(s.type):
+                    driven[s.ti : s.tf] = True
+            for blk in cs.eom_blocks:
+                tf = L if blk.tf is None else min(blk.tf, L)
+                idle = ~driven[blk.ti : tf]
+                if idle.any() and not np.all(det[blk.ti : tf][idle] == float(blk.detuning_off)):
+                    v.append(Violation("sampled-eom-idle-not-at-off-detuning", f"channel {n}: block {blk.ti}-{blk.tf} off-detuning {float(blk.detuning_off)}, sampled idle detuning {sorted(set(det[blk.ti:tf][idle].tolist()))[:4]}", case))
+            ext = chs.extend_duration(L + 24)
+            tail_det = np.asarray(ext.det, dtype=float)[L:]
+            tail_amp = np.asarray(ext.amp, dtype=float)[L:]
+            last = cs.eom_blocks[-1]
+            want = float(last.detuning_off) if last.tf is None else 0.0
+            if not (np.all(tail_det == want) and np.all(tail_amp == 0.0)):
+                v.append(Violation("extended-samples-not-at-latest-off-detuning", f"channel {n}: left {'in' if last.tf is None else 'out of'} EOM mode, latest off-detuning {float(last.detuning_off)}; extension holds detuning {sorted(set(tail_det.tolist()))} amplitude {sorted(set(tail_amp.tolist()))}", case))
+        return v
+
     # ---- the off-detuning choice, model vs implementation (bit-exact), and the emulator test
     def extra_checks(self, tier, rng):
         from pulser.channels.eom import RydbergEOM
